@@ -270,6 +270,40 @@ func LexAll(r io.Reader, o LexOpts) (res *LexResult) {
 	}
 }
 
+// RangeCount reads all messages through the public helper mcap.Range over an unindexed iterator and reports how many
+// the callback saw (with exact fields, compared by the caller through the count of distinct sequence numbers) and how it ended.
+func RangeCount(b []byte) (res RetainResult) {
+	defer func() {
+		if p := recover(); p != nil {
+			res.End = "panic"
+		}
+	}()
+	reader, err := mcap.NewReader(bytes.NewReader(b))
+	if err != nil {
+		res.End = "error"
+		return
+	}
+	defer reader.Close()
+	it, err := reader.Messages(mcap.UsingIndex(false))
+	if err != nil {
+		res.End = "error"
+		return
+	}
+	err = mcap.Range(it, func(_ *mcap.Schema, c *mcap.Channel, m *mcap.Message) error {
+		if c == nil || m == nil || c.ID != m.ChannelID {
+			res.Changed++
+		}
+		res.N++
+		return nil
+	})
+	if err != nil {
+		res.End = "error"
+	} else {
+		res.End = "eof"
+	}
+	return
+}
+
 // LexRetain lexes b with Next(nil) (or, with small, a fresh 4-byte buffer per call: too small for almost every record, so
 // that the lexer has to provide the memory), keeps every returned record and a snapshot of it, and reports how many
 // kept records changed by the time the read is over (C01: values already returned are not altered by later reads).
